@@ -131,6 +131,46 @@ type database struct {
 	// tracks any outstanding updates while waiting for a monitor response
 	deferUpdates    bool
 	deferredUpdates []*bufferedUpdate
+
+	// lastTransactionIDs holds, per monitor id, the id of the last transaction
+	// whose update3 notification has been applied. It has a lock of its own,
+	// which is never held while another lock is taken: the notification
+	// handler runs on the goroutine that delivers RPC replies and must not
+	// wait for monitorsMutex, which Monitor() and connect() hold while they
+	// wait for a reply.
+	lastTransactionIDs      map[string]string
+	lastTransactionIDsMutex sync.Mutex
+}
+
+// setLastTransactionID records the last transaction seen by a monitor
+func (db *database) setLastTransactionID(monitorID, transactionID string) {
+	db.lastTransactionIDsMutex.Lock()
+	defer db.lastTransactionIDsMutex.Unlock()
+	if db.lastTransactionIDs == nil {
+		db.lastTransactionIDs = make(map[string]string)
+	}
+	db.lastTransactionIDs[monitorID] = transactionID
+}
+
+// lastTransactionID returns the last transaction seen by a monitor, if any
+// has been recorded since the ids were last forgotten
+func (db *database) lastTransactionID(monitorID string) (string, bool) {
+	db.lastTransactionIDsMutex.Lock()
+	defer db.lastTransactionIDsMutex.Unlock()
+	id, ok := db.lastTransactionIDs[monitorID]
+	return id, ok
+}
+
+// forgetLastTransactionID drops what was recorded for one monitor, or for
+// all of them when monitorID is empty
+func (db *database) forgetLastTransactionID(monitorID string) {
+	db.lastTransactionIDsMutex.Lock()
+	defer db.lastTransactionIDsMutex.Unlock()
+	if monitorID == "" {
+		db.lastTransactionIDs = nil
+		return
+	}
+	delete(db.lastTransactionIDs, monitorID)
 }
 
 // NewOVSDBClient creates a new OVSDB Client with the provided
@@ -739,13 +779,12 @@ func (o *ovsdbClient) update3(params []json.RawMessage, reply *[]interface{}) er
 	db.cacheMutex.RUnlock()
 
 	if err == nil {
-		db.monitorsMutex.Lock()
-		// the notification may be for a monitor this client does not know: a
-		// Monitor() call that gave up on its context after the request was sent
-		if mon, ok := db.monitors[cookie.ID]; ok {
-			mon.LastTransactionID = lastTransactionID
-		}
-		db.monitorsMutex.Unlock()
+		// recorded under a lock of its own, never monitorsMutex: Monitor() and
+		// connect() hold that one while they wait for a reply that only this
+		// goroutine can deliver. (The notification may also be for a monitor
+		// this client does not know: a Monitor() call that gave up on its
+		// context after the request was sent.)
+		db.setLastTransactionID(cookie.ID, lastTransactionID)
 	}
 
 	return err
@@ -898,6 +937,7 @@ func (o *ovsdbClient) MonitorCancel(ctx context.Context, cookie MonitorCookie) e
 	o.primaryDB().monitorsMutex.Lock()
 	defer o.primaryDB().monitorsMutex.Unlock()
 	delete(o.primaryDB().monitors, cookie.ID)
+	o.primaryDB().forgetLastTransactionID(cookie.ID)
 	o.metrics.numMonitors.Dec()
 	return nil
 }
@@ -988,6 +1028,9 @@ func (o *ovsdbClient) monitor(ctx context.Context, cookie MonitorCookie, reconne
 		transactionID := emptyUUID
 		if reconnecting && len(db.monitors) == 1 {
 			transactionID = monitor.LastTransactionID
+			if id, ok := db.lastTransactionID(cookie.ID); ok {
+				transactionID = id
+			}
 		}
 		args = ovsdb.NewMonitorCondSinceArgs(dbName, cookie, requests, transactionID)
 	} else {
@@ -1024,6 +1067,7 @@ func (o *ovsdbClient) monitor(ctx context.Context, cookie MonitorCookie, reconne
 		err = o.rpcClient.CallWithContext(ctx, monitor.Method, args, &reply)
 		if err == nil && reply.Found {
 			monitor.LastTransactionID = reply.LastTransactionID
+			db.setLastTransactionID(cookie.ID, reply.LastTransactionID)
 			lastTransactionFound = true
 		}
 		tableUpdates = reply.Updates
@@ -1117,6 +1161,7 @@ func (db *database) applyDeferredUpdates(cookie MonitorCookie) error {
 			}
 		}
 		if len(update.lastTxnID) > 0 {
+			db.setLastTransactionID(cookie.ID, update.lastTxnID)
 			if mon, ok := db.monitors[cookie.ID]; ok {
 				mon.LastTransactionID = update.lastTxnID
 			}
@@ -1247,6 +1292,7 @@ func (o *ovsdbClient) handleClientErrors(stopCh <-chan struct{}) {
 						mon.LastTransactionID = emptyUUID
 					}
 					db.monitorsMutex.Unlock()
+					db.forgetLastTransactionID("")
 				}
 				o.Disconnect()
 			} else {
@@ -1394,6 +1440,7 @@ func (o *ovsdbClient) handleDisconnectNotification() {
 		db.monitorsMutex.Lock()
 		defer db.monitorsMutex.Unlock()
 		db.monitors = make(map[string]*Monitor)
+		db.forgetLastTransactionID("")
 	}
 	o.metrics.numMonitors.Set(0)
 
